@@ -209,7 +209,9 @@ func (obj *StandardObject) Receive(s *slip.Scope, message string, args slip.List
 	if s != nil {
 		scope.AddParent(s)
 	}
-	obj.setObjectScope(s)
+	// Bind self and the slots in the scope of the method call, not in the
+	// caller's scope.
+	obj.setObjectScope(scope)
 
 	return m.Call(scope, args, depth)
 }
